@@ -66,6 +66,7 @@ type CBObs struct {
 	IsPanic   bool
 	PanicInj  [2]int
 	RuntimeNs int64
+	Panicked  bool // the callback itself panics right after reporting (callback-panic fault)
 }
 
 type TokInfo struct {
@@ -122,6 +123,8 @@ func injectedPanic(p interface{}) (fn, exec int, ok bool) {
 		return v.Fn, v.Exec, true
 	case *PanicWrap:
 		return v.Fn, v.Exec, true
+	case PanicCB:
+		return v.Fn, v.Exec, true
 	case string:
 		if _, err := fmt.Sscanf(v, "digsim-injected-panic fn=%d exec=%d", &fn, &exec); err == nil {
 			return fn, exec, true
@@ -152,7 +155,7 @@ type World struct {
 	catBind   map[int]*Func
 	lastPInfo *dig.ProvideInfo // Info struct filled by the latest accepted Provide (see Func.ReuseInfo)
 
-	FaultsFired [4]int
+	FaultsFired [5]int
 	HomeOf      map[int]int               // fn id -> index of the scope it was provided to (set by the runner on accepted Provide)
 	Online      func(w *World, ev *Event) // optional hook run at fn-enter
 }
@@ -207,12 +210,24 @@ func (w *World) emit(ev Event) *Event {
 
 func (w *World) faultFor(fn, exec int) FaultKind {
 	for _, f := range w.faults[fn] {
-		if exec >= f.From && (f.To < 0 || exec < f.To) {
+		if f.Kind != FaultCBPanic && exec >= f.From && (f.To < 0 || exec < f.To) {
 			return f.Kind
 		}
 	}
 	return FaultNone
 }
+
+func (w *World) cbFaultFor(fn, exec int) bool {
+	for _, f := range w.faults[fn] {
+		if f.Kind == FaultCBPanic && exec >= f.From && (f.To < 0 || exec < f.To) {
+			return true
+		}
+	}
+	return false
+}
+
+// PanicCB is the value a callback panics with under a callback-panic fault.
+type PanicCB struct{ Fn, Exec int }
 
 func (w *World) injErr(fn, exec int) *InjErr {
 	k := [2]int{fn, exec}
@@ -738,7 +753,13 @@ func (w *World) callback(fn int) dig.Callback {
 				}
 			}
 		}
+		exec := w.Execs[fn] - 1
+		o.Panicked = w.cbFaultFor(fn, exec)
 		w.emit(Event{Kind: EvCallback, Fn: fn, CB: o})
+		if o.Panicked {
+			w.FaultsFired[FaultCBPanic]++
+			panic(PanicCB{fn, exec})
+		}
 		if f := &w.H.Funcs[fn]; f.Reenter && f.ReCB {
 			// re-entrant callback: asks the container while the function's
 			// Call is still in progress (whatever its outcome was)
